@@ -9,6 +9,9 @@
 (* The driver records the real values of both sides (hex); every codec     *)
 (* event records a value, its printed text and the value parsed back.      *)
 (*  {"ev":"derive","res","index","P","pubOfPriv","viewed","B","other"}     *)
+(*  {"ev":"viewtx","res","layout":[types],"viewed":[[keys]],"spend":[[B]]} *)
+(*     Transaction.ViewGhostKey over a transaction whose script outputs    *)
+(*     sit at seeded positions among outputs of other types               *)
 (*  {"ev":"addr","res","s","printed","keys":[..],"parsed":[..]}            *)
 (*  {"ev":"addrmut","res","orig","mut","printed"}                          *)
 (*  {"ev":"codec","kind","res","v","s","back":[v1,v2]}                     *)
@@ -35,6 +38,9 @@ EventOK(e) ==
             /\ e.pubOfPriv = e.P                    \* the recipient's derived private key opens the sender's key
             /\ e.viewed = e.B                       \* viewing recovers the public spend key
             /\ Full => (e.other # e.P /\ e.P # e.B)
+      [] e.ev = "viewtx" ->
+            \* View(P, a, R, j) = B for every script output j of a transaction, whatever precedes it
+            /\ Okd(e) /\ e.viewed = e.spend
       [] e.ev = "addr" ->
             /\ Okd(e) /\ e.printed = e.s /\ e.parsed = e.keys
       [] e.ev = "addrmut" ->
